@@ -448,7 +448,7 @@ type oracle struct {
 
 func startOracle() *oracle {
 	o := &oracle{}
-	o.cmd = exec.Command(pythonPath(), "-S", fw.Root+"/engine/internal/c13/oracle.py")
+	o.cmd = exec.Command(pythonPath(), "-S", fw.EngineDir()+"/internal/c13/oracle.py")
 	o.cmd.Stderr = &o.errb
 	var err error
 	if o.in, err = o.cmd.StdinPipe(); err != nil {
